@@ -205,4 +205,22 @@ PROPS = {
              'boundary alphabet, or of length >= 5 elsewhere; distinct = distinct case text',
         explanation='C32_denote_*: the model operation commutes with the abstract sequence operation; the run checks the implementation equals the model.',
     ),
+    'C07': dict(
+        level='proof',
+        level_text='Rocq theorems: (a) faithful models of from_k_tuples/unite, CompiledDFA::from_lookahead_dfa and minimize (iteration order as '
+                   'an oracle): the compiled automaton accepts u for production p exactly when u is one of p\'s lookahead strings '
+                   '(C07_trie_exact), minimisation preserves that for every oracle (C07_minimize_preserves_accepts), the result is sorted, '
+                   'well-formed and as deep as the longest string; (b) the executable la_dfa_check / la_depth_check applied to the automata '
+                   'parol REALLY generates are sound for all token strings (C07_la_dfa_check_sound). Tie to the code: export-model automata '
+                   'of the real pipeline vs lookahead families computed by the verified FIRST/FOLLOW reference.',
+        level_note='Trusted: Coq kernel, extraction, OCaml driver, Rust harness (export model read-out). minimize_total is not proved (partial '
+                   'correctness of the minimisation model); this does not weaken the check on the real automata, which does not go through '
+                   'the model.',
+        technique='Rocq proof (trie/union/minimise models) + proved automaton-vs-lookahead-set checker on the real generated automata',
+        streams=[dict(cmd='c07', quick=700, thorough=30000)],
+        rule='grammars shaped like the unite-k witness (T: | A | B with depth 2-4), grammars needing exactly k = 1..4 tokens, random clean BNF '
+             'grammars, K in 1..5; a case = one grammar with all its automata; non-trivial = all automata exact and one has >= 3 '
+             'transitions; distinct = distinct case text',
+        explanation='C07_la_dfa_check_sound: accepted automaton = exactly the lookahead sets, for all strings; la_depth_check: k = longest string.',
+    ),
 }
